@@ -163,7 +163,13 @@ func VerifE05ListObjects() {
 	if k := vt.ParamInt("ctx", 0); k > 0 {
 		ctxTuples = &openfgav1.ContextualTupleKeys{TupleKeys: st.SplitContextual(k)}
 	}
-	q, qerr := NewListObjectsQuery(&vtsem.Reader{S: st}, checker, "01HVMMBCMGZNT3SED4Z17ECXCB", opts...)
+	// C10 ("hc" = 1): the request asks for HIGHER_CONSISTENCY and the reader asserts that every read it serves
+	// (reverse expansion and the embedded Check requests alike) carries that preference
+	consistency := openfgav1.ConsistencyPreference_UNSPECIFIED
+	if vt.ParamInt("hc", 0) == 1 {
+		consistency = openfgav1.ConsistencyPreference_HIGHER_CONSISTENCY
+	}
+	q, qerr := NewListObjectsQuery(&vtsem.Reader{S: st, RequireHC: vt.ParamInt("hc", 0) == 1}, checker, "01HVMMBCMGZNT3SED4Z17ECXCB", opts...)
 	vt.Assert(qerr == nil && q != nil, "NewListObjectsQuery failed")
 	vt.Assert(!q.pipelineEnabled, "harness: the pipeline engine is not switched off")
 	vt.Assert(q.optimizationsEnabled == (vt.ParamInt("lo_opt", 0) == 1), "harness: the optimisation flag did not arrive")
@@ -180,6 +186,7 @@ func VerifE05ListObjects() {
 		User:                 rq.user,
 		ContextualTuples:     ctxTuples,
 		Context:              reqCtx,
+		Consistency:          consistency,
 	})
 	vt.Reach("listed")
 	if lerr != nil {
